@@ -32,7 +32,8 @@ fn main() {
         std::process::exit(2);
     }
     let suite = args[1].clone();
-    util::enable_logging();
+    // (`VERIF_LOG=off`: the quiet twin of the guarded child, see childrun.rs)
+    if std::env::var("VERIF_LOG").map(|v| v != "off").unwrap_or(true) { util::enable_logging(); }
     if suite == "__child" {
         childrun::child_main();
         return;
